@@ -215,8 +215,9 @@ def write_evidence(pid, ctx: Ctx, level: str, lean_res, trusted_base, assumption
 def setup() -> int:
     """Build the driver and every Props module named by a property module."""
     mods = []
-    for f in sorted((VERIF / "harness" / "props").glob("c[0-9][0-9].py")):
-        m = importlib.import_module(f"harness.props.{f.stem}")
+    ready = (VERIF / "harness" / "ready.txt").read_text().split()
+    for pid in ready:
+        m = importlib.import_module(f"harness.props.{pid.lower()}")
         for x in getattr(m, "LEAN_MODULES", []):
             if x not in mods:
                 mods.append(x)
